@@ -704,6 +704,15 @@ def stream_files(ctx, F, n_files, n_sweep, families, use_gpg):
                 e = copy.deepcopy(fj)
                 del e["signatures"][i]["keyid"]
                 edits.append(("sig-keyid-field-removed", e, False, i))
+                if "other_headers" in fj["signatures"][i]:
+                    e = copy.deepcopy(fj)                     # other_headers is part of what gpg hashes
+                    h = e["signatures"][i]["other_headers"]
+                    j = rng.randrange(len(h))
+                    e["signatures"][i]["other_headers"] = h[:j] + rng.choice([x for x in HEX if x != h[j].lower()]) + h[j + 1:]
+                    edits.append(("gpg-other-headers", e, False, i))
+                    e = copy.deepcopy(fj)                     # odd number of digits: unhexlify fails
+                    e["signatures"][i]["other_headers"] = h[:-1]
+                    edits.append(("gpg-other-headers-odd", e, False, i))
                 if "sig" in fj["signatures"][i]:
                     e = copy.deepcopy(fj)                     # an sslib entry dressed up as a gpg entry
                     e["signatures"][i]["signature"] = e["signatures"][i]["sig"]
@@ -739,18 +748,6 @@ def stream_files(ctx, F, n_files, n_sweep, families, use_gpg):
                         # entry by the same key exists (never generated here)
                         oracle_viol.append(("%s: verification with key #%d succeeds although its signature entry was changed" % (kind, sig_i), text, skeys, {"must_fail": [sig_i]}))
                 F.add("edit:" + kind, e, skeys, env, obs)
-            if gk and fam == "gpg" and not dsse:
-                # other_headers is part of what gpg hashes; the model's oracle does not see it: implementation-only check
-                e = copy.deepcopy(fj)
-                s0 = e["signatures"][0]
-                if "other_headers" in s0:
-                    h = s0["other_headers"]
-                    j = rng.randrange(len(h))
-                    s0["other_headers"] = h[:j] + rng.choice([x for x in HEX if x != h[j]]) + h[j + 1:]
-                    obs = impl_file(F.write(json.dumps(e).encode()), skeys[:1])
-                    st["edit_kinds"]["gpg-other-headers(impl only)"] = st["edit_kinds"].get("gpg-other-headers(impl only)", 0) + 1
-                    if obs.get("verify") == ["ok"]:
-                        oracle_viol.append(("gpg other_headers edited, signature still verifies", json.dumps(e).encode(), skeys[:1], {"must_fail": [0]}))
     finally:
         env.close()
     return st, oracle_viol
@@ -886,7 +883,7 @@ def cli_sequence(ctx, ck, spec):
         outp = os.path.join(wd, "out%d.json" % len(steps))
         argv = ["-f", cur] + kargs + ["-o", outp] + (["-a"] if ev["append"] else [])
         out = run_cli(argv)
-        new_rows = []
+        new_rows, vrows = [], []
         signers = []
         fj_out = None
         if out.get("exit") == 0 and os.path.exists(outp):
@@ -900,10 +897,13 @@ def cli_sequence(ctx, ck, spec):
             for k, s in zip(ev["keys"], newsigs):
                 if ck.keys[k]["fam"] == "gpg":
                     new_rows.append([s["keyid"], s["signature"], msg_id(m)])
+                    # verification side: the oracle value covers other_headers (Meta.gpg_sig_value)
+                    vrows.append([s["keyid"], s["signature"].lower() + "|" + s["other_headers"].lower(), msg_id(m)])
                     signers.append({"kind": "gpg", "keyid": s["keyid"], "headers": s["other_headers"]})
                 else:
                     val = s["sig"] if "signed" in fj_out else base64.b64decode(s["sig"]).hex()
                     new_rows.append([ck.keys[k]["signer"]["pub"], val, msg_id(m)])
+                    vrows.append([ck.keys[k]["signer"]["pub"], val, msg_id(m)])
                     signers.append(ck.keys[k]["signer"])
         else:
             for k in ev["keys"]:
@@ -916,7 +916,7 @@ def cli_sequence(ctx, ck, spec):
         b64, loads = file_oracles([fj_in] + ([fj_out] if fj_out else []))
         req = {"file": fj_in, "append": bool(ev["append"]), "signers": signers, "b64": b64, "loads": loads,
                "sigs": new_rows, "msgs": [latin(m) for m in msgs]}
-        rows.extend(new_rows)
+        rows.extend(vrows)
         steps.append({"ev": ev, "op": "c09_sign", "req": req, "impl": out})
         if fj_out is not None:
             cur = outp
@@ -1165,8 +1165,7 @@ def run(ctx):
     return core.finish(ctx, "proof", cov, [
         "theorems about Model/Canon.v, Meta.v, Sign.v; signature schemes are oracles (C09_tamper needs ideal_sigs and says exactly what a "
         "changed signature value means for the oracle); tie: differential run of the real library and CLI code",
-        "gpg: the model's oracle is keyed by (key id, message, signature value) and does not see other_headers; edits of other_headers are "
-        "checked against the implementation only",
+        "gpg: the oracle is keyed by (key id, message, signature|other_headers) as in Meta.gpg_sig_value",
         "Python's int->str limit (4300 digits) bounds the integers the implementation can sign; the model's integers are unbounded"])
 
 
